@@ -23,6 +23,13 @@ func init() {
 	if os.Getenv("DEBUG") != "" {
 		eiolog.DEBUG = true
 	}
+	// one seed is one execution whatever GOMAXPROCS the process was started with - except at 1, where
+	// klauspost/zstd switches to its synchronous encoder, whose pattern of writes into the (instrumented)
+	// response buffer differs and so does the number of yield points passed: found by the determinism
+	// self-test. The simulator therefore never runs with fewer than two Ps.
+	if runtime.GOMAXPROCS(0) < 2 {
+		runtime.GOMAXPROCS(2)
+	}
 }
 
 // Result is everything one simulated run produced.
